@@ -727,6 +727,10 @@ func (e *Engine) pos(n ast.Node) string {
 
 // initHeapSym: the symbol a heap key has in st before anything in this epoch touched it.
 func initHeapSym(st *State, key string, s *Sort) *Term {
+	if localLogKey(key) {
+		// a function-local log is untouched by whatever callees do: first read after a havoc = entry value
+		return Var(fmt.Sprintf("H0$%s", smtIdent(strings.TrimPrefix(key, jivaMod+"/"))), s)
+	}
 	return Var(fmt.Sprintf("H%d$%s", st.epoch, smtIdent(strings.TrimPrefix(key, jivaMod+"/"))), s)
 }
 
